@@ -34,7 +34,14 @@ ALPH = ["sub:9", "sub:10+13", "sub:9+10+13+14", "timer", "change:9", "change:13"
 class BleSubH(explore.Harness):
     def __init__(self, p):
         self.p = p
-        self.rig = BleRig(seed=p.get("seed", 0), chars=_chars())
+        chars = _chars()
+        if p.get("acc") == "no-sig":
+            # an accessory without a service-signature characteristic on its protocol-information service (the library supports those)
+            chars = [c for c in chars if c.iid != 31]
+        self.rig = BleRig(seed=p.get("seed", 0), chars=chars)
+        if p.get("acc") == "proto-reject":
+            # an accessory that refuses protocol-configuration requests (no broadcast key, no state number to fetch)
+            self.rig.acc.script[(bleacc.OP_PROTO_CONFIG, 30)] = 6
         self.loop, self.pairing, self.acc = self.rig.loop, self.rig.pairing, self.rig.acc
         self.alphabet = p.get("alphabet", ALPH)
         self.rig.start_notify_fail = {}
